@@ -4,6 +4,7 @@ mod rt;
 mod util;
 mod smoke;
 mod codec;
+mod table;
 
 fn main() {
     clock::self_test();
@@ -16,6 +17,9 @@ fn main() {
         "smoke" => smoke::run(),
         "C05" => codec::run_c05(),
         "C06" => codec::run_c06(),
+        "C07" => table::run_c07_c08("C07"),
+        "C08" => table::run_c07_c08("C08"),
+        "C16" => table::run_c16(),
         "replay" => replay(&args),
         _ => {
             eprintln!("unknown command {cmd}");
